@@ -1209,7 +1209,15 @@ func (ex *Exec) havocModifies(st *State, fc *FuncContract, pc *preparedCall) {
 							ex.checkMapParamWrite(pc.call.Pos(), pc.call.Args[i])
 						}
 					}
-					ex.assignTo(st, pc.call.Args[i], fresh, func(*State) {})
+					if isTemporaryAlloc(ex, pc.call.Args[i]) {
+						// make(...) / a composite literal / nil passed directly: the mutated object is
+						// unreachable after the call, there is nothing to write back
+					} else {
+						ex.assignTo(st, pc.call.Args[i], fresh, func(*State) {})
+						if _, isSlice := under(sig.Params().At(i).Type()).(*types.Slice); isSlice {
+							ex.writeBackContainer(st, pc.call.Args[i], fresh)
+						}
+					}
 					if lk != nil {
 						ex.checkMapParamWrite(pc.call.Pos(), lk.base)
 						// the callee mutated the map object the variable shares with base[key]
@@ -1359,6 +1367,9 @@ func (ex *Exec) addPureAxiom(fc *FuncContract, fn *types.Func) {
 		}
 		t, err := env.elabBool(en.Expr)
 		if err != nil {
+			if strings.Contains(err.Error(), "heap not available") {
+				continue // a clause about heap fields cannot be stated for all arguments: not assumed (sound)
+			}
 			ex.fail(token.NoPos, "pure contract %s ensures %q: %v", fc.Key, en.Src, err)
 			continue
 		}
@@ -1368,4 +1379,22 @@ func (ex *Exec) addPureAxiom(fc *FuncContract, fn *types.Func) {
 		}
 		ex.axioms = append(ex.axioms, body)
 	}
+}
+
+// isTemporaryAlloc: the argument expression allocates a new object in place (make, composite literal) or is nil,
+// so a callee's in-place mutation of it is not observable by the caller.
+func isTemporaryAlloc(ex *Exec, e ast.Expr) bool {
+	switch x := unparen(e).(type) {
+	case *ast.CompositeLit:
+		return true
+	case *ast.Ident:
+		return x.Name == "nil"
+	case *ast.CallExpr:
+		if id, ok := unparen(x.Fun).(*ast.Ident); ok {
+			if _, ok := ex.info.Uses[id].(*types.Builtin); ok && id.Name == "make" {
+				return true
+			}
+		}
+	}
+	return false
 }
